@@ -1,7 +1,13 @@
 import FGVerif.Driver.Shared
 import FGVerif.Model.C01Spec
+import FGVerif.Model.C01Ref
 /-!
   driver operations for C01 (shared decoders/encoders are reused by C02)
+
+  The executable specification applied to implementation outputs (`spec_impl`) and the domain flag
+  are the ones over the HAND-WRITTEN reference tables (`denoteEdgesRef`, `WFRef`, Model/C01Ref.lean):
+  they do not move when the tables of the source under test move.  The flags computed over the
+  regenerated tables (`WF`) are sent along so that the harness can see a drift.
 
   chain   := (<atomtok> <item>*)
   atomtok := (e <str>) | w | (l <str>*)
@@ -111,12 +117,15 @@ def handle : List SExp → Option SExp
       let specModel := match want with | some w => toks == w | none => true
       let specImpl := match want with | some w => ofBool (impl == w) | none => none'
       pure (.list [.atom "ok", toks, ofBool specModel, specImpl])
-  -- (wf <multi> <chain>)
+  -- (wf <multi> <chain>) → (ok <WFRef> <WFcoreRef> <str> <WF over generated tables> <WFcore over generated tables>)
   | [.atom "wf", m, c] => do
       let m ← asBool m
       let c ← asChain c
-      pure (.list [.atom "ok", ofBool (WF m c), ofBool (WFcore c), ofStr (renderStr c)])
+      pure (.list [.atom "ok", ofBool (WFRef m c), ofBool (WFcoreRef c), ofStr (renderStr c),
+                   ofBool (WF m c), ofBool (WFcore c)])
   -- (check <multi> <aam> <off> <chain> <str> <impl exact graph|raised> <impl canon|raised>)
+  --   → (ok <model canon> <spec_model> <spec_impl> <impl exact = model exact> <model = denoteRef>
+  --         <WFRef> <WF over generated tables> <canon of denoteRef>)
   | [.atom "check", m, a, off, c, s, exact, impl] => do
       let m ← asBool m
       let a ← asBool a
@@ -125,15 +134,16 @@ def handle : List SExp → Option SExp
       let s ← asStr s
       let exact ← asImplGraph exact
       if renderStr c != s then none
-      let want := canonOf m (denoteNodes c off a) (denoteEdges c off)
-      let d := denote c off a m
+      let want := canonOf m (denoteNodes c off a) (denoteEdgesRef c off)
+      let d := denoteRef c off a m
+      let tail := [ofBool (WFRef m c), ofBool (WF m c), want]
       match parse ⟨m, a⟩ s off with
       | .ok g =>
         let exactEq := match exact with | some e => ofBool (graphEq g e) | none => none'
-        pure (.list [.atom "ok", canonGraph g, ofBool (canonGraph g == want), ofBool (impl == want),
-                     exactEq, ofBool (graphEq g d), ofBool (WF m c)])
+        pure (.list ([.atom "ok", canonGraph g, ofBool (canonGraph g == want), ofBool (impl == want),
+                      exactEq, ofBool (graphEq g d)] ++ tail))
       | .error e =>
-        pure (.list [.atom "ok", ofErr e, ofBool false, ofBool (impl == want), none', ofBool false, ofBool (WF m c)])
+        pure (.list ([.atom "ok", ofErr e, ofBool false, ofBool (impl == want), none', ofBool false] ++ tail))
   -- (parse <multi> <aam> <off> <str> <impl canon|raised>)
   | [.atom "parse", m, a, off, s, _impl] => do
       let m ← asBool m
